@@ -59,6 +59,13 @@ def _header(magic, extra_lease_offset, nodeid, write_enabler):
     :param write_enabler: A secret shared with the client used to
         authorize changes to the contents of this container.
     """
+    # struct would silently pad or truncate them to the width of their field,
+    # and the container would then hold (and later compare against) some
+    # other value
+    if len(nodeid) != 20:
+        raise ValueError("nodeid must be 20 bytes long")
+    if len(write_enabler) != 32:
+        raise ValueError("write enabler must be 32 bytes long")
     fixed_header = struct.pack(
         ">32s20s32sQQ",
         magic,
